@@ -31,7 +31,7 @@ func registerTests() {
 		evid.Spec{Name: "TestPropTransport", Kind: "rapid", Quick: 64, Thorough: 1600, QuickShards: 16, ThoroughShards: 16},
 	)
 	evid.Commands("obiconvert")
-	evid.Note("rule", "a file model (records with ids/definitions containing > @ + and JSON, IUPAC sequences in any case, qualities 0..93 with quality lines starting with @ or +, flat-file records with and without taxon cross-reference) is rendered as FASTA (fold 0..80, LF/CRLF, blank lines, with/without final EOL), strict FASTQ, GenBank or EMBL. chunks: for EVERY read-buffer size 2..len+2 (64 sampled sizes for files > 400 bytes) and a generated reader behaviour (whole reads, 1-byte reads, half reads, data+EOF, short-read schedule) the real ReadSeqFileChunk is drained: chunk numbers 0,1,2.., every chunk parses alone with the real chunk parser, the concatenation equals the model and every record equals the same record parsed on its own. readers: ReadFasta/ReadFastq on 1.1-3 MiB inputs with 1..8 parsing workers (+ push jitter): batches sorted by Order() are 0..n-1 and equal the model. two_parsers: Go state machines vs kseq on the same file. transport: obiconvert FILE / < FILE / cat FILE | / FILE.gz .bz2 .xz .zst give byte-identical output. multifile: 2..5 FASTA or FASTQ files (any of them empty), title lines of one style per file (free text / JSON annotations / legacy OBI key=value;): obiconvert F1..Fn, obiconvert cat(F1..Fn) and obiconvert < cat(F1..Fn) give the concatenation of the outputs of obiconvert Fi, --no-order (--max-cpu 1 and 8) the same multiset of records; non-trivial = at least two title styles and three records. Non-trivial (chunks) = >= 2 chunks and the first read ended strictly inside a record; distinct = hash(format, layout, #records, file length, buffer size, reader kind).")
+	evid.Note("rule", "a file model (records with ids/definitions containing > @ + and JSON, IUPAC sequences in any case, qualities 0..93 with quality lines starting with @ or +, flat-file records with and without taxon cross-reference) is rendered as FASTA (fold 0..80, LF/CRLF, blank lines, with/without final EOL), strict FASTQ, GenBank or EMBL. chunks: for EVERY read-buffer size 2..len+2 (64 sampled sizes for files > 400 bytes) and a generated reader behaviour (whole reads, 1-byte reads, half reads, data+EOF, short-read schedule) the real ReadSeqFileChunk is drained: chunk numbers 0,1,2.., every chunk parses alone with the real chunk parser, the concatenation equals the model and every record equals the same record parsed on its own. readers: ReadFasta/ReadFastq on 1.1-3 MiB inputs with 1..8 parsing workers (+ push jitter): batches sorted by Order() are 0..n-1 and equal the model. two_parsers: Go state machines vs kseq on the same file. transport: obiconvert FILE / < FILE / cat FILE | / FILE.gz .bz2 .xz .zst, and the same bytes as a gzip file of two or three members (file and standard input), give byte-identical output. multifile: 2..5 FASTA or FASTQ files (any of them empty), title lines of one style per file (free text / JSON annotations / legacy OBI key=value;): obiconvert F1..Fn, obiconvert cat(F1..Fn) and obiconvert < cat(F1..Fn) give the concatenation of the outputs of obiconvert Fi, --no-order (--max-cpu 1 and 8) the same multiset of records; non-trivial = at least two title styles and three records. Non-trivial (chunks) = >= 2 chunks and the first read ended strictly inside a record; distinct = hash(format, layout, #records, file length, buffer size, reader kind).")
 }
 
 func TestReplay(t *testing.T) { evid.Replay(t) }
@@ -666,6 +666,36 @@ func checkTransport(c TransportCase) error {
 		if k == "gzip" && (c.L.Format == "fasta" || c.L.Format == "fastq") {
 			if err := cmp("< FILE.gz", run.Cmd(run.Opt{Stdin: z}, "obiconvert", fmtFlag...)); err != nil {
 				return err
+			}
+		}
+		if k == "gzip" && len(data) >= 2 {
+			// the same bytes as a multi-member gzip file (cat a.gz b.gz, bgzip, pigz -i): two or
+			// three members cut at arbitrary byte positions decompress to the same stream
+			cuts := []int{len(data) / 2}
+			if len(data) >= 9 {
+				cuts = []int{len(data) / 3, len(data) - 2}
+			}
+			var mz []byte
+			prev := 0
+			for _, cut := range append(cuts, len(data)) {
+				part, err := codec.Compress("gzip", data[prev:cut])
+				if err != nil {
+					return nil
+				}
+				mz = append(mz, part...)
+				prev = cut
+			}
+			mp := plain + ".members.gz"
+			if os.WriteFile(mp, mz, 0o644) != nil {
+				return nil
+			}
+			if err := cmp(fmt.Sprintf("FILE.gz made of %d gzip members", len(cuts)+1), run.Cmd(run.Opt{}, "obiconvert", mp)); err != nil {
+				return err
+			}
+			if c.L.Format == "fasta" || c.L.Format == "fastq" {
+				if err := cmp(fmt.Sprintf("< FILE.gz made of %d gzip members", len(cuts)+1), run.Cmd(run.Opt{Stdin: mz}, "obiconvert", fmtFlag...)); err != nil {
+					return err
+				}
 			}
 		}
 	}
